@@ -41,8 +41,12 @@ var refForms = []refForm{
 		return fmt.Sprintf(`{"$id":"file://%s/values.schema.json","type":"object","properties":{"name":{"$ref":"canary.json"}}}`, filepath.Dir(p))
 	}},
 	{form: "absolute path", schema: func(p string, _ int) string { return refSchema(p) }},
-	{form: "http: URL", schema: func(_ string, port int) string { return refSchema(fmt.Sprintf("http://127.0.0.1:%d/canary.json", port)) }},
-	{form: "https: URL", schema: func(_ string, port int) string { return refSchema(fmt.Sprintf("https://127.0.0.1:%d/canary.json", port)) }},
+	{form: "http: URL", schema: func(_ string, port int) string {
+		return refSchema(fmt.Sprintf("http://127.0.0.1:%d/canary.json", port))
+	}},
+	{form: "https: URL", schema: func(_ string, port int) string {
+		return refSchema(fmt.Sprintf("https://127.0.0.1:%d/canary.json", port))
+	}},
 	{form: "$schema naming a file: URL", schema: func(p string, _ int) string {
 		return fmt.Sprintf(`{"$schema":"file://%s","type":"object","properties":{"name":{"type":"string"}}}`, p)
 	}},
